@@ -79,3 +79,24 @@ class PlainNames(Collector):
 
     def map_constant(self, expr, *args, **kwargs):
         return {(type(expr).__name__, repr(expr))}
+
+
+class OptAliasMark(CachedIdentityMapper):
+    """overrides map_quotient but not its base-class aliases map_floor_div / map_remainder (which stay identity)"""
+
+    def get_cache_key(self, expr, *args, **kwargs):
+        return (type(expr), expr)
+
+    def map_quotient(self, expr, *args, **kwargs):
+        return p.Variable("QUOT")
+
+    def map_sum(self, expr, *args, **kwargs):
+        return p.Variable("SUM")
+
+
+class PlainAliasMark(IdentityMapper):
+    def map_quotient(self, expr, *args, **kwargs):
+        return p.Variable("QUOT")
+
+    def map_sum(self, expr, *args, **kwargs):
+        return p.Variable("SUM")
